@@ -15,6 +15,8 @@ var (
 	ErrNoPrivKey = errors.New("private key not available for peer")
 	// ErrNoPublicKey is returned when the public key cannot be extracted from a peer ID.
 	ErrNoPublicKey = errors.New("public key is not embedded in peer ID")
+	// ErrNonCanonicalPeerID is returned when a peer ID is not the ID derived from the public key it embeds.
+	ErrNonCanonicalPeerID = errors.New("peer ID is not the canonical encoding of its public key")
 	// ErrInvalidEd25519PubKeyForCurve25519 is returned if a public key cannot be used for curve25519.
 	ErrInvalidEd25519PubKeyForCurve25519 = errors.New("invalid ed25519 public key for curve25519")
 )
